@@ -41,8 +41,9 @@ type rigReq struct {
 }
 
 type rigIn struct {
-	Project  pProject `json:"project"`
-	Requests []rigReq `json:"requests"`
+	Project       pProject `json:"project"`
+	Requests      []rigReq `json:"requests"`
+	ExpectRefused bool     `json:"expectRefused,omitempty"` // the generator built a project the tool must refuse
 }
 
 type rigResp struct {
